@@ -857,7 +857,8 @@ def read_lines(view: PackageView, tm, tb, dids: DataIds, cells, tag, sub: Ctx | 
                 want = "err " + exc_name(e)
             if want != reply and not (want.startswith("err") and reply.startswith("err")):
                 sub.violation("style-read-differs-from-archives",
-                              f"{tag}: cell ({r},{c}) of table {tb.name!r}: the library reads {describe_sty(reply)}, the style archives of "
+                              f"{(tag.get('fixture_read') or tag.get('fixture') or 'new document') if isinstance(tag, dict) else tag}: "
+                              f"cell ({r},{c}) of table {tb.name!r}: the library reads {describe_sty(reply)}, the style archives of "
                               f"the package (own member, else parent's, else default) say {describe_sty(want)}",
                               dict(tag if isinstance(tag, dict) else {"fixture": tag}, read_cell=[tb.name, r, c]))
     return out
@@ -1308,6 +1309,30 @@ def scenario(name):
         if (None if o is None else tuple(o)) != (None if s2 is None else tuple(s2)):
             return ("bg-color-lost-next-to-image-fill", "a style with a background image is also given bg_color=RGB(1, 223, 33): the open "
                     f"document reports bg_color {tuple(o) if o else None}, the reloaded file {tuple(s2) if s2 else None}")
+    elif name == "read-style-text-attribute":
+        doc = Document()
+        tb = doc.sheets[0].tables[0]
+        tb.write(1, 1, "x")
+        st = tb.cell(1, 1).style
+        st.italic = True
+        st.font_size = 20.0
+        o = (tb.cell(1, 1).style.italic, tb.cell(1, 1).style.font_size)
+        s2 = cycle(doc).sheets[0].tables[0].cell(1, 1).style
+        if o != (s2.italic, s2.font_size):
+            return ("read-style-text-attribute-change-not-saved", "cell.style.italic = True; cell.style.font_size = 20.0 on cell B2 of a new "
+                    f"document: the open document reports (italic, font_size) = {o}, the reloaded file {(s2.italic, s2.font_size)}")
+    elif name == "rename-saved-style":
+        doc = Document()
+        tb = doc.sheets[0].tables[0]
+        st = doc.add_style(name="A", bold=True)
+        tb.write(0, 0, "x", style=st)
+        cycle(doc)
+        st.name = "B"
+        o = tb.cell(0, 0).style.name
+        s2 = cycle(doc).sheets[0].tables[0].cell(0, 0).style.name
+        if o != s2:
+            return ("style-changed-after-save-reloaded-differs", "style 'A' applied to A1 and saved, then style.name = 'B' and saved again: the "
+                    f"open document reports name {o!r}, the reloaded file {s2!r}")
     elif name == "gradient-style-modified":
         f = REPO / "tests/data/issue-7.numbers"
         if f.exists():
@@ -1324,7 +1349,7 @@ def scenario(name):
 
 SCENARIOS = ["second-stroke", "fingerprint", "fingerprint-1.01", "gradient-read-then-save", "float-not-binary32", "all-colour-values",
              "all-fonts", "all-alignments", "stroke-then-merge", "stroke-then-write", "gradient-style-modified", "same-image-bytes",
-             "image-and-colour-fill"]
+             "image-and-colour-fill", "read-style-text-attribute", "rename-saved-style"]
 
 
 def _scenario_worker(task):
@@ -1400,7 +1425,7 @@ def run(ctx: Ctx):
     n_sty = 500 if ctx.quick else 5000
     fixtures = sorted(p.name for p in (REPO / "tests/data").glob("*.numbers"))
     twins = [f for f in TWIN_QUICK if f in fixtures] if ctx.quick else fixtures
-    n_tie = 150 if ctx.quick else 1500
+    n_tie = 100 if ctx.quick else 1500
     reads = [f for f in READ_QUICK if f in fixtures] if ctx.quick else fixtures
     tasks = ([("b", ctx.seed, h) for h in range(n_hist)] + [("s", ctx.seed, h) for h in range(n_sty)]
              + [("t", f) for f in twins] + [("x", n) for n in SCENARIOS]
